@@ -37,6 +37,8 @@ func (e nhEvent) String() string {
 		return e.Op + "(" + e.P + ")"
 	case "advance":
 		return fmt.Sprintf("advance(%ds)", e.S)
+	case "report":
+		return fmt.Sprintf("report(%s about b%d from %s)", []string{"received", "forwarded", "delivered", "deleted"}[e.S%4], e.B, e.P)
 	case "cron":
 		return "cron(" + e.N + ")"
 	}
@@ -199,6 +201,22 @@ func (r *nhRun) apply(e nhEvent) error {
 				t.AgeAtAccept = ab.Value.(*bpv7.BundleAgeBlock).Age()
 			}
 		}
+	case "report":
+		// a peer delivers a status report about test bundle B (status S: 0 received, 1 forwarded, 2 delivered,
+		// 3 deleted), addressed to the bundle's report-to endpoint
+		t := r.tr[e.B]
+		if !t.Accepted {
+			effective = false
+			break
+		}
+		about := r.build(e.B)
+		about.PrimaryBlock.CreationTimestamp = t.ID.Timestamp
+		rep, rerr := bpv7.Builder().Source("dtn://"+e.P+"/").Destination(about.PrimaryBlock.ReportTo.String()).CreationTimestampNow().Lifetime("10m").
+			StatusReport(about, bpv7.StatusInformationPos(e.S), bpv7.NoInformation).Build()
+		if rerr != nil {
+			return rerr
+		}
+		n.receive(rep, e.P)
 	case "up":
 		effective = !n.peer(e.P).up
 		n.peerUp(e.P)
